@@ -37,6 +37,9 @@ type scripted struct {
 	lastErr  int
 }
 
+// cancelFrom is set by the cancelled-context stream around its runs (see lrCase.CancelFrom)
+var cancelFrom int
+
 var errOther = errors.New("c15: scripted read error")
 
 func errOf(code int) error {
@@ -96,7 +99,9 @@ type lrCase struct {
 	Errs   []int    `json:"errs,omitempty"` // error returned with the last byte of each chunk
 	Obs    []obs    `json:"obs"`
 	RetErr []int    `json:"ret_err,omitempty"` // error ReadAndSend handed back, per call
-	Fin    []string `json:"fin"`
+	// CancelFrom k > 0: the k-th and all later calls (and Finish) get a context that is already cancelled
+	CancelFrom int      `json:"cancel_from,omitempty"`
+	Fin        []string `json:"fin"`
 }
 
 func drain(ch chan *logline.LogLine) []string {
@@ -138,9 +143,19 @@ func executeE(size int, script []string, errs []int) (c lrCase, delivered []stri
 	}
 	ctx := context.Background()
 	lr := logstream.NewLineReader("c15", ch, src, size, func() {})
-	c = lrCase{Size: size, Script: vlib.Qs(script), Errs: errs}
+	c = lrCase{Size: size, Script: vlib.Qs(script), Errs: errs, CancelFrom: cancelFrom}
 	guard := 0
+	calls := 0
 	for len(src.chunks) > 0 {
+		// the context of the calls is not part of how bytes are framed: a stream
+		// that is shutting down makes its last reads (and Finish) with a context
+		// that is already cancelled, and everything read must still be framed
+		if cancelFrom > 0 && calls == cancelFrom-1 {
+			cctx, cancel := context.WithCancel(ctx)
+			cancel()
+			ctx = cctx
+		}
+		calls++
 		n, err := lr.ReadAndSend(ctx)
 		if codeOf(err) != src.lastErr {
 			problems = append(problems, fmt.Sprintf("ReadAndSend returned error %v, the reader returned %v", err, errOf(src.lastErr)))
@@ -659,6 +674,38 @@ func main() {
 		sweptG++
 	}
 	out.Extra["generations_checked_by_oracle"] = sweptG
+	// ---- calls made with a context that is already cancelled ----
+	nc := 80
+	if a.Thorough() {
+		nc = 2000
+	}
+	for i := 0; i < nc; i++ {
+		n := 1 + rng.Intn(160)
+		b := make([]byte, n)
+		for k := range b {
+			switch x := rng.Intn(100); {
+			case x < 22:
+				b[k] = '\n'
+			case x < 30:
+				b[k] = '\r'
+			default:
+				b[k] = byte(97 + rng.Intn(26))
+			}
+		}
+		var script []string
+		mc := 2 + rng.Intn(60)
+		for p := 0; p < n; {
+			l := 1 + rng.Intn(mc)
+			if p+l > n {
+				l = n - p
+			}
+			script = append(script, string(b[p:p+l]))
+			p += l
+		}
+		cancelFrom = 1 + rng.Intn(len(script))
+		runE(vlib.Pick(rng, []int{1, 2, 8, 64, 4096}), script, nil, true, "cancelled-context")
+		cancelFrom = 0
+	}
 	out.Extra["reads_with_error_checked_by_oracle"] = sweptE
 	out.Extra["exhaustive_cases_checked_by_oracle"] = swept
 	out.Extra["oracle_violations_by_class"] = perClass
